@@ -282,7 +282,7 @@ pub fn family_check(w: &mut World, k: u16, r: &RetSig) {
                     bad!("yielded something other than the output of the member that resolved in this poll");
                 }
                 let slot = w.children[f.0 as usize].slot as u32;
-                if r.key != NONE && r.key != slot {
+                if r.key != NONE && r.key != slot && w.children[f.0 as usize].role_tag != TAG_UNKNOWN_SLOT {
                     bad!("output of the member with key {} was paired with key {}", slot, r.key);
                 }
                 w.detach(f.0);
@@ -318,7 +318,7 @@ pub fn family_check(w: &mut World, k: u16, r: &RetSig) {
                     bad!("yielded something other than the first item produced in this poll");
                 }
                 let slot = w.children[f.0 as usize].slot as u32;
-                if r.key != NONE && r.key != slot {
+                if r.key != NONE && r.key != slot && w.children[f.0 as usize].role_tag != TAG_UNKNOWN_SLOT {
                     bad!("item of the member with key {} was tagged with key {}", slot, r.key);
                 }
                 return;
